@@ -227,3 +227,127 @@ def normalize_program(draw: Callable) -> tuple[str, str]:
     if t.p(20):
         stms.append(t.one(["#show h/1.", "#show h/2.", "#show g/1.", "#show X : h(X)."]))
     return "\n".join(stms), "+".join(sorted(set(names)))
+
+
+# ---------------------------------------------------------------- cleanup (C08)
+def _args(t: T, vars_: list[str], n: int, allow_anon: bool = True) -> str:
+    out = []
+    for _ in range(n):
+        k = t.i(0, 11)
+        if k < 8:
+            out.append(t.one(vars_))
+        elif k < 9 and allow_anon:
+            out.append("_")
+        elif k < 10:
+            out.append(t.num(0, 2))
+        elif k < 11:
+            out.append(f"f({t.one(vars_)})")
+        else:
+            out.append(f"{t.one(vars_)}+1")
+    return ",".join(out)
+
+
+def cleanup_program(draw: Callable) -> tuple[str, str]:
+    """heads implying body atoms; users whose literals are / are not implied"""
+    t = T(draw)
+    names = []
+    stms: list[str] = []
+    vs = ["X", "Y"]
+    # defining rules of h/2 (1..3 of them, different bodies and head kinds); the first literal binds X and Y
+    nrules = t.i(1, 3)
+    for _ in range(nrules):
+        hargs = t.one(["X,Y", "X,Y", "Y,X", "X,X", "X,1", "X,f(Y)"])
+        body = [t.one(["q(X,Y)", "q(X,Y)", "q(Y,X)", "r(X,Y)", "p(X), p(Y)"])]
+        for _ in range(t.i(0, 2)):
+            body.append(t.one([f"p({_args(t, vs, 1, False)})", f"r({_args(t, vs, 2)})", f"q({_args(t, vs, 2)})", f"{t.neg(100)}p({t.one(vs)})", f"{t.neg(100)}r({_args(t, vs, 2, False)})", f"X {t.op()} Y", "p(X)", "p(Y)", "q(X,Y)", "r(Y,X)"]))
+        k = t.i(0, 9)
+        if t.p(30):
+            body = body[1:] + body[:1]
+        b = ", ".join(body)
+        if k < 5:
+            stms.append(f"h({hargs}) :- {b}.")
+            names.append("plain")
+        elif k < 7:
+            stms.append(f"{{ h({hargs}) : {body[0]} }} :- {', '.join(body[1:]) or 'p(0)'}." if len(body) == 1 or t.p(50) else f"{{ h({hargs}) : {body[-1]} }} :- {', '.join(body[:-1])}.")
+            names.append("choice")
+        elif k < 8:
+            stms.append(f"h({hargs}) ; g(X) :- {b}.")
+            names.append("disjunction")
+        elif k < 9:
+            stms.append(f"#sum{{ 1,Y : h({hargs}) : {body[-1]} }} <= 1 :- {', '.join(body[:-1]) or 'q(X,Y)'}.")
+            names.append("headagg")
+        else:
+            stms.append(f"h({hargs}) : {body[-1]} :- {', '.join(body[:-1]) or 'q(X,Y)'}.")
+            names.append("condhead")
+    if t.p(35):  # implication chain through a second predicate
+        stms.append(t.one(["k(X,Y) :- h(X,Y), p(X).", "k(X,Y) :- h(Y,X).", "k(X,Y) :- h(X,Y), not r(X,Y).", "k(X,Y) :- h(X,Y). k(X,Y) :- q(X,Y), p(X)."]))
+        names.append("chain")
+    # users: (literal, variables it binds)
+    user_atoms = [("h(A,B)", "AB"), ("h(A,B)", "AB"), ("h(B,A)", "AB"), ("h(A,A)", "A"), ("h(A,_)", "A"), ("k(A,B)", "AB"), ("k(B,A)", "AB")]
+    extra = [
+        ("q(A,B)", "AB"), ("q(B,A)", "AB"), ("q(A,_)", "A"), ("q(_,B)", "B"), ("q(A,A)", "A"), ("p(A)", "A"), ("p(B)", "B"), ("r(A,B)", "AB"), ("r(B,A)", "AB"),
+        ("not p(A)", ""), ("not p(B)", ""), ("not r(A,B)", ""), ("not not p(A)", ""), ("not not q(A,B)", ""), ("not q(A,B)", ""), ("h(A,_)", "A"), ("h(_,B)", "B"),
+        ("not h(A,B)", ""), ("not not h(A,B)", ""), ("#true", ""), ("#false", ""), ("not #false", ""), ("p(A) : #true", ""), ("p(A) : #false", ""),
+        ("q(A,B) : p(A), q(A,B)", ""), ("not p(C) : q(A,C), p(A)", ""),
+    ]
+    for _ in range(t.i(1, 3)):
+        chosen = [t.one(user_atoms)] + [t.one(extra) for _ in range(t.i(1, 3))]
+        bound = "".join(b for _, b in chosen)
+        if "A" not in bound:
+            chosen.append(("p(A)", "A"))
+        if "B" not in bound:
+            chosen.append(t.one([("p(B)", "B"), ("q(A,B)", "AB")]))
+        order = [x for x, _ in chosen]
+        if t.p(50):
+            order = order[1:] + order[:1]
+        k = t.i(0, 9)
+        b = "; ".join(order)
+        if k < 4:
+            stms.append(f"u(A,B) :- {b}.")
+        elif k < 6:
+            stms.append(f":- {b}.")
+        elif k < 7:
+            stms.append(f":~ {b}. [1@{t.num(0, 1)},A,B]")
+        elif k < 9:
+            conds = ", ".join(x for x in order if ":" not in x and not x.startswith("#"))
+            stms.append(f"c(A) :- p(A), #sum{{ B : {conds}; 1,x : #true; 2,y : #false, p(A) }} {t.op()} {t.num(0, 3)}.")
+        else:
+            conds = ", ".join(x for x in order if ":" not in x)
+            stms.append(f"c(A) :- p(A), u2(B) : {conds}.")
+    stms = t.context(["p", "q", "r"]) + stms
+    return "\n".join(stms), "cleanup:" + "+".join(sorted(set(names)))
+
+
+# ---------------------------------------------------------------- unused (C09)
+def unused_program(draw: Callable) -> tuple[str, str]:
+    """copy rules, unused positions, predicates only observed by particular statement kinds"""
+    t = T(draw)
+    stms: list[str] = []
+    names = []
+    # a derived predicate with possibly unused positions
+    stms.append(t.one(["a(X,Y) :- q(X,Y).", "a(X,Y) :- q(X,Y), p(X).", "a(X,Y,Z) :- q(X,Y), r(Y,Z).", "{ a(X,Y) : q(X,Y) }.", "a(X,Y) ; na(X,Y) :- q(X,Y).", "a(X,Y) :- q(X,Y). a(X,Y) :- r(X,Y)."]))
+    # copy rules / chains
+    for _ in range(t.i(0, 3)):
+        c = t.one(
+            [
+                "b(X,Y) :- a(X,Y).", "b(Y,X) :- a(X,Y).", "b(X,X) :- a(X,X).", "b(X,Y) :- a(X,Y). b(X,Y) :- r(X,Y).", "b(X,Y) :- a(Y,X).",
+                "c(X,Y) :- b(X,Y).", "c(X,Y) :- b(Y,X).", "b(X,Y) :- a(X,Y,_).", "b(X,Y) :- a(X,_,Y).", "b(X,1) :- a(X,_).", "b(X,Y) :- a(X,Y), p(X).",
+                "b(X,Y) :- not a(X,Y), q(X,Y).", "b(X) :- a(X,_).", "b(X) :- a(_,X).", "b(X,Y) :- a(X,X), p(Y).", "e(X) :- b(X,_), not c(X,X).",
+            ]
+        )
+        stms.append(c)
+        names.append("copy")
+    # observers of different kinds
+    for _ in range(t.i(1, 4)):
+        o = t.one(
+            [
+                ":- b(X,_), p(X).", ":- b(X,Y), X < Y.", "out(X) :- b(X,_).", "out(X) :- c(_,X).", "out(X) :- a(X,_).", "{ out(X) } :- b(X,Y).",
+                "out(X) : b(X,_) :- p(X).", "out(X) ; out2(X) :- b(X,_).", "out(N) :- N = #count{ X : b(X,_) }.", "out(N) :- N = #sum{ Y,X : c(X,Y) }.",
+                ":~ b(X,_). [1@1,X]", ":~ c(X,Y). [Y@0]", "#minimize{ 1,X : a(X,_) }.", "#show b/2.", "#show c/2.", "#show X : b(X,_).", "#show e/1.",
+                "#show p(X) : e(X).", "#external b(X,Y) : q(X,Y).", "#project b/2.", "#project c(X,Y) : q(X,Y).", "#heuristic b(X,Y) : q(X,Y). [1,true]",
+                "#edge (X,Y) : b(X,Y).", "1 { out(X) : b(X,_) } 1.", "#sum{ 1,X : out(X) : b(X,_) } <= 1.", "out(X) :- p(X), not b(X,_).", "out :- b(_,_).", "out :- not c(_,_).",
+            ]
+        )
+        stms.append(o)
+    stms = t.context(["p", "q", "r"]) + stms
+    return "\n".join(stms), "unused:" + "+".join(sorted(set(names)) or ["plain"])
